@@ -227,7 +227,8 @@ def register(prop, run, KERNELS, C01_COVERS):
     prop("C05",
          quick=[run("C05_conc", covers=["done", "flushed", "preempted"], initial=1, mutations=1, flusher=1, preemptions=1, nkeys=2, evict=0, dirty=0, maporder=0, budget=900)],
          thorough=[run("C05_conc", covers=["done", "flushed", "preempted"], initial=1, mutations=1, flusher=1, preemptions=1, nkeys=2, evict=1, dirty=1, maporder=0, budget=1800),
-                   run("C05_conc", covers=["done", "flushed", "preempted"], initial=1, mutations=2, flusher=1, preemptions=1, nkeys=2, evict=0, dirty=0, maporder=2, budget=3000)],
+                   run("C05_conc", covers=["done", "flushed", "preempted"], initial=1, mutations=2, flusher=1, preemptions=1, nkeys=2, evict=0, dirty=0, maporder=2, budget=3000),
+                   run("C05_conc", covers=["done", "flushed", "preempted"], initial=1, mutations=1, flusher=1, preemptions=1, nkeys=2, evict=0, dirty=0, maporder=0, reader2=1, budget=1800)],
          outside=["weak-memory behaviours: sequential consistency is assumed (the code has deliberate unsynchronised accesses, nodeMutex = false)", "more than 1 (quick) / 2 pre-emptive context switches per schedule; switches at blocking points are free", "pre-emption only at mutex, atomic, channel, StoreFile-call and visitor-callback boundaries, not at every memory access", "one reader performing one operation; at most 2 mutations; concrete keys a..c (values symbolic)"],
          text="Bounded symbolic model checking with an enumerated scheduler: mutator, flusher and reader are interpreted goroutines over one harness StoreFile; every mutex operation, atomic, StoreFile call and visitor callback is a scheduling decision, enumerated exhaustively up to the pre-emption bound. Each read result must equal the contents of one version whose validity interval intersects the call interval (a visit is compared as a whole sequence), no schedule may panic or deadlock, the mutator's final state must be the sequential result, and the file written by the concurrent Flush must re-open to per-collection versions that were current during the Flush, a not later than b.",
          note=NOTE + "; sequential consistency; schedule-dependent counterexamples are replayed concretely in the engine when the native build cannot be forced onto the schedule",
